@@ -4,6 +4,7 @@ import (
 	"bytes"
 	"encoding/binary"
 	"encoding/gob"
+	"errors"
 	"sort"
 	"sync"
 
@@ -31,7 +32,14 @@ func OpenIndexFromBoltDatabase(db *bbolt.DB, opts ...IndexOption) (*Index, error
 
 	err := db.View(func(tx *bbolt.Tx) error {
 		bucket := tx.Bucket([]byte("data"))
+		if bucket == nil {
+			return errors.New("not an updog index: data bucket missing")
+		}
+
 		schemaItem := bucket.Get(keySchema)
+		if schemaItem == nil {
+			return errors.New("not an updog index: schema missing")
+		}
 
 		var sch schema
 
@@ -42,6 +50,9 @@ func OpenIndexFromBoltDatabase(db *bbolt.DB, opts ...IndexOption) (*Index, error
 		idx.schema = &sch
 
 		rowsItem := bucket.Get(keyNextRowID)
+		if len(rowsItem) != 4 {
+			return errors.New("not an updog index: row counter missing or malformed")
+		}
 
 		idx.nextRowID = binary.BigEndian.Uint32(rowsItem)
 		return nil
